@@ -14,7 +14,9 @@ MANIFEST = dict(
          'any number of concurrent pickers by counter abstraction, SetNumLoops/SetLoadBalance between phases): an inductive invariant gives, for every '
          'reachable state of every schedule and configuration sequence, that every poller returned by Pick is in the current slice with its loop started and '
          'not closed, that after the first completed slow path the slice has exactly numLoops distinct running pollers, every surplus poller was closed exactly '
-         'once and none leaked, that a waiting picker always has a lock holder with an enabled step, and (pure arithmetic) that round-robin slot counts differ by '
+         'once and none leaked - this resource half with no hypothesis on the environment: also after injected openPoll failures, whose error path closes the '
+         'pollers the failing Run had opened together with the old pool (C18_size, C18_none_left_behind, C18_failed_run_closes_all; fix a1c21fb) -, '
+         'that a waiting picker always has a lock holder with an enabled step, and (pure arithmetic) that round-robin slot counts differ by '
          'at most one for every start counter below 2^63. The model is tied to /repo on every run: regenerated status enum and step fingerprints (T-gen), '
          'step-by-step trace conformance of the real manager under a controlled scheduler, sequential differential runs and concurrent stress, '
          'with liveness probes of the real pollers and a descriptor census; the Lean spec oracle judges the implementation\'s replies directly.',
@@ -22,7 +24,9 @@ MANIFEST = dict(
          '(evidence lists sites and schedules exercised). Schedule points are add-only vmgrPoint lines applied from hooks/manager.patch to a temporary copy of '
          'poll_manager.go/poll_loadbalance.go at build time (no commit in /repo); if the patch no longer applies the check falls back to stress + sequential '
          'differential with an escalated budget (evidence field sched_mode says which ran). Assumed, with Lean witnesses of what happens otherwise: '
-         'A-open-ok (openPoll does not fail: on failure Run closes the old pollers, leaks the new ones, nils the balancer and Pick panics), '
+         'A-open-ok for the claims about what Pick returns (when openPoll fails Run closes every poller, the old pool and the ones it had just opened, '
+         'and leaves a closed manager: no slice, numLoops 0, no balancer; Pick cannot report the error and panics on the nil balancer until SetLoadBalance '
+         'and SetNumLoops are called again; that nothing is left open is required by the spec oracle after every injected failure), '
          'A-no-wrap (fewer than 2^63 picks per balancer: beyond, int(uintptr) % n is negative and Pick panics for every n >= 2), numLoops < 2^31, '
          'no reconfiguration concurrent with Pick (contract). Termination is stated as quiescence (no stuck state) under scheduler fairness. See DESIGN.md §6 C18, §8.',
     technique='Lean 4 invariant proof over an interleaving model (counter abstraction) + controlled-scheduler trace conformance, differential and stress correspondence of model and code',
@@ -148,7 +152,8 @@ def run(rep, prop=PROP):
     rep.cov['distinct_nontrivial'] = len(scheds) + len(finals)
     rep.cov['rule'] = ('scenarios generated by go/inpkg/mgrh.go on a fresh manager each: seq = sequential SetNumLoops/SetLoadBalance/Pick/Reset/Close/counter presets; '
                        'sched = phases of 1-5 goroutines in Pick under the one-actor-at-a-time scheduler, every atomic step compared with Netpoll.Manager.step '
-                       '(shared words, balancer snapshot, where every actor is parked, descriptor census, closed pollers), openPoll failures injected in ~8% of them; '
+                       '(shared words, balancer snapshot, where every actor is parked, descriptor census, closed pollers), openPoll failures injected in ~8% of them '
+                       '(the scenario goes on after the failure: closed manager, revival by SetLoadBalance/SetNumLoops); '
                        'stress = phases of 2-64 truly concurrent Picks. distinct_nontrivial = distinct complete schedules (actor/site sequences, all with >= 1 preemption '
                        'when more than one actor) + distinct final dumps')
     rep.cov['distinct_schedules'] = len(scheds)
@@ -169,7 +174,9 @@ def run(rep, prop=PROP):
             if r['mode'] == m and r['samples']:
                 samples.append(m + ': ' + r['samples'][0][:1500]); break
     rep.cov['samples'] = samples
-    rep.assumptions += ['A-open-ok: openPoll() does not fail (witness C18_openfail_witness; the failing path is exercised by injected RLIMIT_NOFILE=0 and compared with the model)',
+    rep.assumptions += ['A-open-ok (only for the claims about what Pick returns): openPoll() does not fail (witness C18_openfail_witness: closed manager, Pick panics on the nil balancer; '
+                        'the failing path is exercised by injected RLIMIT_NOFILE=0, compared with the model step by step, and the spec oracle requires that no poller is left behind: '
+                        'Obs.noStray, theorem C18_none_left_behind, no assumption)',
                         'A-no-wrap: fewer than 2^63 round-robin picks per balancer (witness C18_round_robin_sign_witness; boundary counters are preset and compared with the model)',
                         'numLoops < 2^31 (int32 truncation in SetNumLoops not modelled)',
                         'no SetNumLoops/SetLoadBalance concurrent with Pick (contract; not generated)',
@@ -224,7 +231,7 @@ def report(rep, binary, wd, problems, proof_broken, soft):
     if genuine:
         seq, idx, kind, detail, timing, src = genuine[0]
         small = shrink(binary, seq[:idx + 1], kind, os.path.join(wd, 'shrink'))
-        rep.violation('the real poller pool violates the C18 spec oracle on an in-contract scenario (%d such scenarios; the first is the replay; source %s): %s'
+        rep.violation('the real poller pool violates the C18 spec oracle on a scenario inside the contract of the violated clause (%d such scenarios; the first is the replay; source %s): %s'
                       % (len(genuine), src, detail), small)
     elif others:
         seq, idx, kind, detail, timing, src = others[0]
